@@ -36,7 +36,7 @@ type App struct {
 	// FailStateChange: OnStateChanged(s) returns an error the next FailStateChange[s] times (an application that
 	// cannot be notified)
 	FailStateChange map[state.State]int
-	StepFn    func() int
+	StepFn          func() int
 }
 
 // RestoreRec: the application was restored to the state after block Index when it had seen Commits commit calls.
